@@ -167,6 +167,9 @@ def cfg_sibling(r, crate):
         t = b["term"]
         if t["k"] == "call" and "std::ops::FromResidual::from_residual" in F.callee_names(t) and t["dest"]["l"] == 0:
             err_blocks.add(bi)
+        if t["k"] == "call" and t["dest"]["l"] == 0 and not t["dest"]["p"] and \
+                (t["callee"].get("resolved") or t["callee"].get("path")) in common.always_err_fns(crate):
+            err_blocks.add(bi)          # `return self.fail(code)`: a helper that only ever returns Err
         for s in b["stmts"]:
             if s["k"] == "assign" and s["place"]["l"] == 0 and not s["place"]["p"] and s["rv"]["k"] == "agg" \
                     and s["rv"].get("adt", "").endswith("Result") and s["rv"]["variant"] == 1:
@@ -652,7 +655,8 @@ def decimal_parts(ctx, crate, rule=None):
     local = lambda a, b: b.crate == crate.name and b.file.endswith("parse/mod.rs") and b.kind != "closure" and b.path != g.path \
         and not b.is_pub and b.path.startswith(P) and b.path not in (P + "parse_token", P + "parse_whitespace")
     inl = lambda a, b: hi(a, b) or local(a, b)
-    texts = ["12e-7", "12e+7", "12e7", "12E-34", "1.5e-3", "0.25", "12.5E+2", "100e-2", "1.25e-12", "9.5e21", "3e-007", "10.0625"]
+    texts = ["12e-7", "12e+7", "12e7", "12E-34", "1.5e-3", "0.25", "12.5E+2", "100e-2", "1.25e-12", "9.5e21", "3e-007", "10.0625",
+             "1e0000000005", "1.5e-00000000003"]
     n = und = 0
     for text in texts:
         seq = [ord(c) for c in text] + [0x20]
@@ -687,6 +691,10 @@ def decimal_parts(ctx, crate, rule=None):
                 vals.add(None)
         if ends == {"stop:float"} and vals == {want}:
             r.ok("literal %s reaches the float constructor as %s" % (text, sorted(got)[0]), f)
+        elif ends == {"return"} and not got:
+            r.violation(f.path, "dec-parts-unreached:%s" % text,
+                        "the literal %s is answered (rejected, or given a value) without its digits ever reaching the float "
+                        "constructor: it is a plain decimal literal well inside the range of a double" % text, f.loc())
         elif ends != {"stop:float"} or None in vals or not vals:
             r.note("undecided: %s ends in %s with %s" % (text, sorted(ends), got[:2]))
             r.obligations += 1
